@@ -1,5 +1,5 @@
 #!/bin/bash
-# seed_matrix.sh <K> <listfile>: evaluates the seeds of <listfile> (lines: ID SRCDIR DEMODIR) with K parallel
+# seed_matrix.sh <K> <listfile>: evaluates the seeds of <listfile> (lines: ID SRCDIR DEMODIR [CHECKS,comma,separated]) with K parallel
 # evaluators, each on its own scratch copy of /verif and its own scratch worktree of /repo under /tmp/ev
 # (so that /repo and /verif themselves stay untouched); results go to /verif/seeded/<ID>/meta.json.
 set -u
@@ -12,14 +12,14 @@ for k in $(seq 1 $K); do
   sed -i "s#=> /repo#=> /tmp/ev/r$k#" /tmp/ev/v$k/go/harness/go.mod
 done
 n=0
-while read -r id src demo; do
+while read -r id src demo checks; do
   [ -z "$id" ] && continue
   n=$((n+1)); k=$(( (n-1) % K + 1 ))
-  echo "$id $src $demo" >> /tmp/ev/list$k
+  echo "$id $src $demo $checks" >> /tmp/ev/list$k
 done < "$LIST"
 for k in $(seq 1 $K); do
-  ( while read -r id src demo; do
-      python3 /verif/tools/seed_eval.py "$id" "$src" "$demo" --repo /tmp/ev/r$k --verif /tmp/ev/v$k
+  ( while read -r id src demo checks; do
+      python3 /verif/tools/seed_eval.py "$id" "$src" "$demo" --repo /tmp/ev/r$k --verif /tmp/ev/v$k ${checks:+--checks $checks}
     done < /tmp/ev/list$k ) > /tmp/ev/log$k 2>&1 &
 done
 wait
